@@ -52,6 +52,60 @@ static std::string dumpExpr(Expression* e) {
     return "(unknown-expr)";
 }
 
+// statements, in the s-expression form of extract/driver_parse.ml (sx_stmt)
+static std::string dumpTy(Type* t) {
+    std::vector<std::string> dims;
+    Type* cur = t;
+    while (auto a = dynamic_cast<ArrayType*>(cur)) {
+        std::string d = a->size >= 0 ? "(lit " + std::to_string(a->size) + ")" : (a->sizeExpression ? "(expr " + dumpExpr(a->sizeExpression.get()) + ")" : "(none)");
+        dims.insert(dims.begin(), d);      // the outermost ArrayType is the last pair of brackets
+        cur = a->elementType.get();
+    }
+    std::string base = "?";
+    if (auto p = dynamic_cast<PrimitiveType*>(cur)) base = p->name;
+    else if (dynamic_cast<VoidType*>(cur)) base = "void";
+    else if (auto n = dynamic_cast<NamedType*>(cur)) base = "(cls " + dumpType(n) + ")";
+    std::string s = "(ty " + base;
+    for (auto& d : dims) s += " " + d;
+    return s + ")";
+}
+static std::string dumpStmt(Statement* st);
+static std::string dumpBlock(Statement* st) {
+    auto b = dynamic_cast<BlockStatement*>(st);
+    if (st && !b) return "(not-a-block " + dumpStmt(st) + ")";
+    std::string s = "(block";
+    if (b) for (auto& x : b->statements) s += " " + dumpStmt(x.get());
+    return s + ")";
+}
+static std::string optExpr(Expression* e) { return e ? dumpExpr(e) : "-"; }
+static std::string dumpStmt(Statement* st) {
+    if (!st) return "(nullptr)";
+    if (dynamic_cast<BlockStatement*>(st)) return dumpBlock(st);
+    if (auto d = dynamic_cast<VariableDeclaration*>(st))
+        return std::string("(decl ") + (d->isFinal ? "1" : "0") + " " + (d->isTracked ? "1" : "0") + " " + dumpTy(d->varType.get()) + " " + d->name + " " + optExpr(d->initializer.get()) + ")";
+    if (auto r = dynamic_cast<ReturnStatement*>(st)) return "(return " + optExpr(r->value.get()) + ")";
+    if (auto i = dynamic_cast<IfStatement*>(st))
+        return "(if " + dumpExpr(i->condition.get()) + " " + dumpBlock(i->thenBranch.get()) + " " + (i->elseBranch ? dumpBlock(i->elseBranch.get()) : std::string("-")) + ")";
+    if (auto f = dynamic_cast<ForStatement*>(st)) {
+        std::string init = "(none)";
+        if (auto d = dynamic_cast<VariableDeclaration*>(f->initializer.get()))
+            init = std::string("(fdecl ") + (d->isFinal ? "1" : "0") + " " + dumpTy(d->varType.get()) + " " + d->name + " " + optExpr(d->initializer.get()) + (d->isTracked ? " tracked" : "") + ")";
+        else if (auto e = dynamic_cast<ExpressionStatement*>(f->initializer.get())) init = "(fexpr " + dumpExpr(e->expression.get()) + ")";
+        else if (f->initializer) init = "(unknown-init)";
+        return "(for " + init + " " + dumpExpr(f->condition.get()) + " " + dumpExpr(f->increment.get()) + " " + dumpBlock(f->body.get()) + ")";
+    }
+    if (auto w = dynamic_cast<WhileStatement*>(st)) return "(while " + dumpExpr(w->condition.get()) + " " + dumpBlock(w->body.get()) + ")";
+    if (auto e = dynamic_cast<EchoStatement*>(st)) return "(echo " + dumpExpr(e->value.get()) + ")";
+    if (auto r = dynamic_cast<ResetStatement*>(st)) return "(reset " + dumpExpr(r->target.get()) + ")";
+    if (auto m = dynamic_cast<MeasureStatement*>(st)) return "(smeasure " + dumpExpr(m->qubit.get()) + ")";
+    if (auto d = dynamic_cast<DestroyStatement*>(st)) return "(destroy " + dumpExpr(d->target.get()) + ")";
+    if (auto t = dynamic_cast<TernaryStatement*>(st))
+        return "(tern " + dumpExpr(t->condition.get()) + " " + dumpStmt(t->thenBranch.get()) + " " + dumpStmt(t->elseBranch.get()) + ")";
+    if (auto a = dynamic_cast<AssignmentStatement*>(st)) return "(sassign " + a->name + " " + dumpExpr(a->value.get()) + ")";
+    if (auto e = dynamic_cast<ExpressionStatement*>(st)) return "(sexpr " + dumpExpr(e->expression.get()) + ")";
+    return "(unknown-stmt)";
+}
+
 int main(int argc, char** argv) {
     if (argc < 2) return 2;
     std::ifstream in(argv[1]);
@@ -97,6 +151,27 @@ int main(int argc, char** argv) {
                     if (auto ec = dynamic_cast<EchoStatement*>(prog->functions[0]->body->statements[0].get()))
                         out = dumpExpr(ec->value.get());
                     if (prog->functions[0]->body->statements.size() != 1) out += " extra-statements";
+                }
+                printf("%s\n", out.c_str());
+            } catch (const support::BlochError& e) {
+                printf("ERR %s %d %d\n", e.category == support::ErrorCategory::Parse ? "Parse" : (e.category == support::ErrorCategory::Lexical ? "Lexical" : "Other"), e.line, e.column);
+            } catch (const std::exception& e) {
+                printf("EXC %s\n", verif::hex(e.what()).c_str());
+            }
+        }
+        else if (cmd == "stmt") {
+            // stmt <hexsource>: parse `function main() -> void { <source> }` and dump the body's single statement
+            std::string h; ls >> h;
+            std::string src = "function main() -> void { " + verif::unhex(h) + " }";
+            try {
+                Lexer lx(src);
+                Parser ps(lx.tokenize());
+                auto prog = ps.parse();
+                std::string out = "(no-statement)";
+                if (prog && !prog->functions.empty() && prog->functions[0]->body) {
+                    auto& ss = prog->functions[0]->body->statements;
+                    if (ss.size() == 1) out = dumpStmt(ss[0].get());
+                    else out = "ERR Count " + std::to_string(ss.size()) + " statements";
                 }
                 printf("%s\n", out.c_str());
             } catch (const support::BlochError& e) {
